@@ -49,7 +49,7 @@ def units_for(prop, tier):
     for p in sorted(glob.glob(os.path.join(ROOT, 'vx', 'units', '*.vx'))):
         name = os.path.basename(p)[:-3]
         meta = extract.unit_meta(name)
-        if prop in meta['props'] and (tier == 'thorough' or meta['tier'] == 'quick'):
+        if (prop in meta['props'] or prop in meta.get('clauseprops', [])) and (tier == 'thorough' or meta['tier'] == 'quick'):
             for m in meta['modes']:
                 res.append((name, m))
     return res
@@ -130,10 +130,17 @@ def analyse(unit, mode, gen, text, linemap, js, diags, raw, fname):
                         where.append('%s:%s:%d%s' % (o[0], o[1], o[2], (' (' + s['label'] + ')') if s.get('label') else ''))
                 else:
                     where.append('%s:%d%s' % (s.get('file_name'), s.get('line_start'), (' (' + s['label'] + ')') if s.get('label') else ''))
+            tags = set()
+            tl = text.split('\n')
+            for sp in d.get('spans', []):
+                if sp.get('file_name') == fname:
+                    for ln_ in range(sp['line_start'], sp.get('line_end', sp['line_start']) + 1):
+                        if 1 <= ln_ <= len(tl):
+                            tags.update(re.findall(r'@(C\d\d)\b', tl[ln_ - 1]))
             kind = msg.split(':')[0]
             oname = '%s[%s]/%s/%s@%s' % (unit, mode, fn, kind.replace(' ', '-'),
                                          ('%s:%d' % (origin[1], origin[2])) if origin else '?')
-            res['failures'].append({'obligation': oname, 'function': fn, 'message': msg, 'where': where,
+            res['failures'].append({'obligation': oname, 'function': fn, 'message': msg, 'where': where, 'tags': sorted(tags),
                                     'rendered': d.get('rendered', '')})
         elif RLIMIT_MSG.search(msg):
             res['tool_errors'].append('rlimit: ' + msg)
@@ -255,7 +262,13 @@ def check(prop, tier, seed):
     failures = []
     inconclusive = []
     for r in results:
+        um = extract.unit_meta(r['unit'])
         for f in r['failures']:
+            if f.get('tags'):
+                if prop not in f['tags']:
+                    continue
+            elif prop not in um['props']:
+                continue
             failures.append(f)
         if r['status'] == 'inconclusive':
             inconclusive.append('vx:%s[%s]: %s' % (r['unit'], r['mode'], '; '.join(r['tool_errors'])[:600]))
@@ -419,8 +432,11 @@ def main():
         outdir = os.path.join(BUILD, 'vx', 'dbg')
         os.makedirs(outdir, exist_ok=True)
         r = run_unit(a.unit, a.mode, outdir)
-        print(json.dumps({k: v for k, v in r.items() if k not in ('queries', 'log', 'functions')}, indent=1)[:6000])
+        print(json.dumps({k: v for k, v in r.items() if k not in ('queries', 'log', 'functions', 'tool_errors', 'failures', 'assumption_scan')}, indent=1))
+        for e in r['tool_errors']:
+            print('TOOL-ERROR:', e)
         for f in r['failures']:
+            print(f['obligation'], f.get('tags'))
             print(f['rendered'])
         sys.exit({'ok': 0, 'fail': 1}.get(r['status'], 2))
     else:
